@@ -366,6 +366,7 @@ impl BytecodeBuilder {
                 | Op::Throw { .. }
                 | Op::PopTry
                 | Op::FinallyEnd
+                | Op::DiscardCompletion
                 | Op::GetException { .. }
                 | Op::Rethrow
                 | Op::Await { .. }
